@@ -38,7 +38,7 @@ def run(tier, seed, flavour="plain", prop="C13"):
     od = core.run_dir(prop, tier)
     paths = core.build(targets(flavour))
     res = core.run_sharded([{"name": "c13_fluid", "binary": paths["c13_fluid"], "nshards": core.NCPU, "out": od,
-                             "args": ["--seed", str(seed), "--tier", tier] + core.deep(tier, cases=320000),
+                             "args": ["--seed", str(seed), "--tier", tier] + core.deep(tier, cases=320000) + core.boost(tier, flavour, cases=24000),
                              "env": core.SAN_ENV if flavour == "san" else None}], timeout=3600)
     V.absorb(res)
     m = core.merge_summaries(res)
